@@ -259,20 +259,7 @@ def build_multi(mc, rockit):
                        "include_last": c.get("include_last", True)}
                 if Fr(c.get("scale", 1)) != 1:
                     kwc["scale"] = float(Fr(c["scale"]))
-                rels = c["rels"]
-                f = lambda e: tplB.ex(e, s)
-                form = c.get("form", "vec")
-                if form == "between":
-                    mid = f(rels[0]["rhs"])
-                    if mid.is_constant():
-                        raise ValueError("You passed a constant middle expression (generated two-sided relation folded by CasADi)")
-                    expr = f(rels[0]["lhs"]) <= (mid <= f(rels[1]["rhs"]))
-                elif form == "ge":
-                    expr = ca.vertcat(*[f(r["rhs"]) for r in rels]) >= ca.vertcat(*[f(r["lhs"]) for r in rels])
-                else:
-                    L = ca.vertcat(*[f(r["lhs"]) for r in rels])
-                    R = ca.vertcat(*[f(r["rhs"]) for r in rels])
-                    expr = (L == R) if rels[0]["rel"] == "eq" else (L <= R)
+                expr = CS.constraint_expr(c, lambda e: tplB.ex(e, s))
                 s.subject_to(expr, **kwc)
             if st.get("param_values") is not None:
                 CS.apply_param_values(B, eff_case(mc, i))
